@@ -258,8 +258,10 @@ def _compact(plan):
             parts.append("S %s %d %d %s" % (a["kind"], a["cap"], a["len0"], " ".join(map(str, a["mem0"]))))
         elif k == "open":
             parts.append("O " + " ".join(map(str, a["ks"])))
-        elif k in ("write", "extend", "advance", "scribble", "readclose"):
-            parts.append({"write": "W", "extend": "E", "advance": "A", "scribble": "X", "readclose": "Q"}[k] + " " + " ".join(map(str, a["bs"])))
+        elif k == "extend":
+            parts.append("E %d %s" % (["exact", "nohint", "under", "over"].index(a["it"]), " ".join(map(str, a["bs"]))))
+        elif k in ("write", "advance", "scribble", "readclose"):
+            parts.append({"write": "W", "advance": "A", "scribble": "X", "readclose": "Q"}[k] + " " + " ".join(map(str, a["bs"])))
         elif k == "read":
             parts.append("R %d %s %s" % (len(a["bs"]), " ".join(map(str, a["bs"])), " ".join(map(str, a["ks"]))))
         else:
@@ -359,7 +361,7 @@ def run(ctx):
     tier = ctx.tier
     bins = core.build_harness(["vh-buffer"])
     ctx.coverage["rule"] = (
-        "direction A: every path of <= MaxOps operations (open / nested open with and without cap_at, write, extend, "
+        "direction A: every path of <= MaxOps operations (open / nested open with and without cap_at, write, extend with iterators whose size_hint is exact / absent / under- / over-reporting, "
         "advance, scribble, read_buffer, read_buffer_ref on the view itself, close, close after initialized(), unwind) through the TLC-generated graph of "
         "MC_Buffer for each backing store, capacity and pre-existing length of the config, each executed on the real "
         "API; distinct by construction (different operation sequences); counted non-trivial when at least one operation "
